@@ -100,8 +100,24 @@ func gtabID(info *gtab.Info) (v.Sx, error) {
 	if info == nil {
 		return none, nil
 	}
+	// The identity of a layout table does not distinguish a nil list from an
+	// empty one (the Go value does, the file does not when all lists are
+	// empty: gtab.Read returns an empty script list and nil feature / lookup
+	// lists for a header with zero offsets).  A nil list NEXT TO a non-empty
+	// one keeps its own identity: there the codec loses data (finding
+	// info-nil-list-lost of property C08), which must show.
+	norm := *info
+	if norm.ScriptList == nil {
+		norm.ScriptList = gtab.ScriptListInfo{}
+	}
+	if norm.FeatureList == nil {
+		norm.FeatureList = gtab.FeatureListInfo{}
+	}
+	if norm.LookupList == nil {
+		norm.LookupList = gtab.LookupList{}
+	}
 	var b []byte
-	if err := safely(func() { b = info.Encode() }); err != nil {
+	if err := safely(func() { b = norm.Encode() }); err != nil {
 		return nil, err
 	}
 	return hid(b), nil
